@@ -186,11 +186,12 @@ fn var_specs() -> Vec<(i32, Option<(f64, f64)>)> {
     v.push((KIND_INTEGER, Some((1.5, 7.0))));
     v.push((KIND_INTEGER, Some((-6.0, -2.5))));
     v.push((KIND_CONTINUOUS, Some((-6.5, 1.5))));
-    v.push((KIND_CONTINUOUS, Some((-(0.7 + 0.1), 1.1 * 1.1))));
     v.push((KIND_BINARY, None));
     v.push((KIND_BINARY, Some((0.0, 1.0))));
     v.push((KIND_BINARY, Some((0.0, 0.0))));
     v.push((KIND_BINARY, Some((1.0, 1.0))));
+    // LAST (left out of the three-variable product, see `run`): a bound whose ends need all 17 digits
+    v.push((KIND_CONTINUOUS, Some((-(0.7 + 0.1), 1.1 * 1.1))));
     v
 }
 
@@ -233,7 +234,9 @@ pub fn run(ctx: &Ctx) -> Finish {
     let forms = |nv: usize| -> Vec<(Vec<(u64, f64)>, f64)> {
         let mut f: Vec<(Vec<(u64, f64)>, f64)> = vec![(vec![], 0.0), (vec![], 2.5), (vec![(ids[0], 1.0)], 0.0), (vec![(ids[0], -2.0)], -1.5)];
         // doubles that need all 17 significant digits to be written without loss
-        f.push((vec![(ids[0], 0.1 + 0.2)], -(0.7 + 0.1)));
+        if nv <= 2 {
+            f.push((vec![(ids[0], 0.1 + 0.2)], -(0.7 + 0.1)));
+        }
         if nv >= 2 {
             f.push((vec![(ids[1], 0.5), (ids[0], 3.0)], 4.0));
             f.push((vec![(ids[1], 1.0)], 0.0));
@@ -263,7 +266,10 @@ pub fn run(ctx: &Ctx) -> Finish {
             }
         }
         let mut var_cfgs: Vec<Vec<usize>> = vec![];
-        odometer(&vec![specs.len(); nv], |d| var_cfgs.push(d.to_vec()));
+        // the 17-digit spec and form are part of the one- and two-variable products only (the three-variable
+        // product of the thorough tier already takes 10-19 min)
+        let ns = if nv >= 3 { specs.len() - 1 } else { specs.len() };
+        odometer(&vec![ns; nv], |d| var_cfgs.push(d.to_vec()));
         ctx.note(&format!("nv{nv}"), json!({"variable_configs": var_cfgs.len(), "objective_forms": fs.len(), "constraint_lists": con_lists.len()}));
         let n = var_cfgs.len() * fs.len();
         ctx.par(n, |l, i| {
@@ -353,7 +359,7 @@ pub fn run(ctx: &Ctx) -> Finish {
     });
     Finish {
         level: "model_checking",
-        rule: "every linear instance of the product: 1..3 used variables (ids {4,9,1}, rotated list order, plus an unused variable with the largest id) each over the kind x bound specs (continuous/integer x {absent,[0,1],[-3,5],[2,inf),(-inf,4],(-inf,inf),[-5,-1],[0,0],[0,inf),[-3,0],(-inf,0],[1,1]}, binary x {absent,[0,1],[0,0],[1,1]}, a bound whose ends need 17 significant digits) x objective forms (absent, constant, linear +- constant, coefficient 0.1+0.2 with constant -(0.7+0.1)) x constraint lists (0..2, = / <=, constant-only included, ids {40,3}) with function variants rotating over every message type able to hold a linear function, both senses, name present/absent; written with mps::write_file and read with mps::load_file; oracle: same sense, objective and constraints equal as polynomials under the same ids, same effective value domain for every used variable; one 150-variable x 80-constraint instance (several hundred KB of MPS text); nonlinear objective / constraint refused with an error naming the offender; non-trivial = non-empty problem".into(),
+        rule: "every linear instance of the product: 1..3 used variables (ids {4,9,1}, rotated list order, plus an unused variable with the largest id) each over the kind x bound specs (continuous/integer x {absent,[0,1],[-3,5],[2,inf),(-inf,4],(-inf,inf),[-5,-1],[0,0],[0,inf),[-3,0],(-inf,0],[1,1]}, binary x {absent,[0,1],[0,0],[1,1]}, for 1..2 variables a bound whose ends need 17 significant digits) x objective forms (absent, constant, linear +- constant, for 1..2 variables coefficient 0.1+0.2 with constant -(0.7+0.1)) x constraint lists (0..2, = / <=, constant-only included, ids {40,3}) with function variants rotating over every message type able to hold a linear function, both senses, name present/absent; written with mps::write_file and read with mps::load_file; oracle: same sense, objective and constraints equal as polynomials under the same ids, same effective value domain for every used variable; one 150-variable x 80-constraint instance (several hundred KB of MPS text); nonlinear objective / constraint refused with an error naming the offender; non-trivial = non-empty problem".into(),
         bounds: json!({"variables_max": nv_max, "kind_bound_specs": specs.len(), "constraints_max": 2}),
         exhaustive: t,
     }
